@@ -221,7 +221,10 @@ PROPS['C14'] = {
 
 TRUSTED_ALLOW['pcw'] = TRUSTED_ALLOW['bits'] | TRUSTED_ALLOW['page_w'] | {
     'external_body:eq', 'external_body:to_f64', 'external_body:to_i64', 'external_body:update_min', 'external_body:update_max',
-    'external_body:write_buffer_to_disk',
+    'external_body:shim_has', 'external_body:shim_find', 'external_body:shim_vec_bsw', 'external_body:shim_opaque_from_str',
+    'external_body:validate_prototype_contract', 'external_body:get_max_packet_points', 'external_body:from_record_type',
+    'external_body:from_record_types', 'external_body:spec_default', 'external_body:shim_clone_opaque', 'external_body:shim_clone_proto',
+    'external_body:shim_arr8', 'external_body:bytes_eq8',
 }
 PROPS['C10']['verus'] = ['bits', 'pcw']
 PROPS['C14']['verus'] = ['pcw']
@@ -304,11 +307,39 @@ PROPS['C05'] = {
         'the simple iterator is specified up to its first Err or None'],
 }
 
+_PCW2 = [
+    'contract-only inside unit pcw: validate_prototype (closures over iterators; assumed to enforce the documented rules it is specified with), get_max_packet_points (1 <= r <= 2^20; Kani wr_k, prototype length bounded), limits()/from_record_type(s) (Kani wr_k), Iterator::any/find with name-equality closures (shims), derive(Default) of the bounds structs = all None, derive(Clone) structural',
+    'prototype length < 32768 (precondition of PointCloudWriter::new; F2b: larger prototypes are not rejected by the code)',
+    'the per-call contracts (new / add_point / write_buffer_to_disk / finalize) are induction steps relative to the pre-state; the whole-history statement (all points of a section, in order, across all packets) follows by induction over calls and is not mechanised as one theorem',
+]
+PROPS['C01'] = {
+    'level': 'proof',
+    'verus': ['bits', 'pcw', 'rd'],
+    'claim': ('Raw round trip as a chain of per-function contracts on the real bodies. Writer: add_point buffers exactly the accepted values (all fit the prototype), '
+              'write_buffer_to_disk packs the first min(capacity, pending) points in order: per stream, emitted chunk bytes followed by what stays buffered are exactly '
+              'the previously buffered bits plus enc(value) of each packed point (enc = value-min in width(min,max) bits LSB first / LE float bytes, C12), and the logical '
+              'stream receives exactly one well-formed data packet (header, n LE stream lengths, the chunks, zero padding to 4; <= 65535 bytes) or nothing; the section '
+              'length is the number of logical bytes since the section start; finalize drains everything, patches ONLY the 32 header bytes with the final length and '
+              'publishes (records = points added, file_offset = physical section start, prototype); new writes the header placeholder and records data_offset = '
+              'physical position behind it. Page layer: logical stream survives flush (C11). Reader: QueueReader::new seeks to file_offset/data_offset, advance '
+              'appends each announced stream chunk to its bit buffer and decodes floor(rest/w) values (chunk+min), pop_point/next yield one value per record in order, '
+              'at most `records` points (unit rd). Decoder(encoder(v)) = v for every representable v (theorem_int_roundtrip, float LE round trip).'),
+    'trusted': GLOBAL_TRUSTED + [_DEV, _CRC_OFF],
+    'assumptions': [_DEV] + _RD_ASSUME + _PCW_ASSUME + _PCW2 + PROPS['C12']['assumptions'] + [
+        'identical prototype through XML (names, types, min/max/scale/offset as text) is outside (C04 not applicable)',
+        'known finding F4 (all records zero-width) is excluded on the reader side and reported under C09'],
+}
+PROPS['C10']['assumptions'] += _PCW2
+PROPS['C14']['assumptions'] += _PCW2
+PROPS['C14']['claim'] += ' Unit pcw (Verus, real bodies): PointCloudWriter::new creates empty bounds exactly for the attribute groups present and default limits = declared range of the first Intensity / ColorRed,Green,Blue record types; add_point folds min/max over the records of the point for all 18 bound fields (frame over the structs), leaves them untouched when the point is rejected; write_buffer_to_disk never touches bounds/limits; finalize moves bounds and limits unchanged into the published descriptor.'
+PROPS['C02']['verus'] = ['page_w', 'fmt', 'blob', 'e57w', 'pcw']
+PROPS['C16']['verus'] = ['page_w', 'page_r', 'rd_top', 'blob', 'e57w', 'pcw']
+
 FIX_COMMITS = ['4bb8197', '4c9a29a', '15147a8', '4e117ba', 'b93d656', 'a099e6e', 'e707a6b', '30d67e9', '4443841', '1d90b93', 'ec0e9b9', 'ed32bde']
 
 _PENDING = 'unit not completed yet in the build round (applicable; see DESIGN.md §1) — not claimed until its obligations are discharged'
 NOT_APPLICABLE = {
-    'C01': _PENDING,
+    
     'C04': 'lives entirely in format!-built strings and roxmltree parsing; no contract within reach of Verus (no str byte reasoning) or Kani (roxmltree does not finish) can state parse(serialise(x)) = x (DESIGN.md §6)',
      
     'C15': _PENDING, 
